@@ -198,6 +198,15 @@ func cmdCheck(args []string) int {
 					suffix = ""
 				}
 			}
+			// the model of a cut loop starts from an arbitrary state satisfying the
+			// invariant and need not be reachable: look for a reachable failing
+			// input by bounded unrolling (an under-approximation: counterexample
+			// search only, the verdict does not depend on it)
+			if suffix != "" && sr.Oblig != nil && sr.FR != nil && (strings.HasPrefix(kind, "safe:") || kind == "post") {
+				if eng.searchReplay(sr, &rf, timeout) {
+					suffix = ""
+				}
+			}
 		}
 		path := filepath.Join(replayDir, safeFile(obl)+".json")
 		b, _ := json.MarshalIndent(rf, "", " ")
